@@ -23,3 +23,6 @@ Print Assumptions C31_escape_rejected.
 Check (C31_fuel_irrelevant : forall (fuel k : nat) (root : node) (resolved todo : list string) (links : nat) (q : list string),
   resolve fuel root resolved todo links = Ok q -> resolve (fuel + k) root resolved todo links = Ok q).
 Print Assumptions C31_fuel_irrelevant.
+Check (C31_fuel_sufficient : forall (root : node) (todo : list string) (k : nat),
+  resolve (fuel_for root todo + k) root [] todo 0 = resolve (fuel_for root todo) root [] todo 0).
+Print Assumptions C31_fuel_sufficient.
